@@ -12,7 +12,7 @@ use flsrc::uci::Flounder;
 use refchess::{Kind, Mv, Pos};
 use serde_json::{json, Value};
 
-pub const RULE: &str = "game histories with controlled multiplicities: from startpos or a generated valid FEN, a random prefix, then shuffle cycles (both sides move a man out and back, 0..3 full cycles, knight/king/rook/bishop/queen shuffles, with and without lost castling rights, vanished ep squares or an intervening irreversible move) and a partial cycle, so that the candidate successors of the final position P have 0, 1, 2 or >=3 earlier occurrences; 1..2 position commands on a fresh engine (only the last one's history may count; in a fifth of the cases the game is given first and then its final position again as a bare 'position fen …' / 'position startpos' without moves, whose history is that single position). Oracle (value level, through the real command path): 'position ...' then 'go depth 1'; the score of the completed depth-1 iteration must equal max over legal m of ( n(m) >= 2 ? 0 : -Q(P·m) ), Q = reference quiescence value, n(m) = occurrences of P·m in the most recent command's history. Successors whose count differs between the rule-book identity (ep only if capturable) and the exact-field identity are not judged. Non-trivial = the case discriminates (value with the draw rule != value without it, or a successor seen exactly once keeps its real non-zero value while deciding the maximum) ; distinct by command text.";
+pub const RULE: &str = "game histories with controlled multiplicities: from startpos or a generated valid FEN, a random prefix, then shuffle cycles (both sides move a man out and back, 0..3 full cycles, knight/king/rook/bishop/queen shuffles, with and without lost castling rights, vanished ep squares or an intervening irreversible move) and a partial cycle, so that the candidate successors of the final position P have 0, 1, 2 or >=3 earlier occurrences; 1..2 position commands on a fresh engine (only the last one's history may count; in a fifth of the cases the game is given first and then its final position again as a bare 'position fen …' / 'position startpos' without moves, whose history is that single position). Oracle (value level, through the real command path): 'position ...' then 'go depth 1'; the score of the completed depth-1 iteration must equal max over legal m of ( n(m) >= 2 ? 0 : -Q(P·m) ), Q = reference quiescence value, n(m) = occurrences of P·m in the most recent command's history. Successors whose count differs between the rule-book identity (ep only if capturable) and the exact-field identity are not judged. Non-trivial = the case discriminates (value with the draw rule != value without it, or a successor seen exactly once keeps its real non-zero value while deciding the maximum) ; distinct by command text. Part 'deep' (values two and three plies down): the same kind of game (mostly 3..6 men, often one or two plies off the shuffle cycle so that the twice-seen positions lie two or three plies below the root), then 'go depth 2|3' on a fresh engine; EVERY completed iteration i must report V_h(P,i) = plain minimax over the reference rules in which any position below the root that the judged history already shows twice is worth 0, leaves by the reference quiescence (with depth <= 3 no position can recur inside the line itself, and the deeper-entry-reuse counter must be 0). Cases whose value differs between the two identities of positions are not judged. Non-trivial there = the rule applied one ply below the root only would give another value (a draw two or three plies down decides), or an abandoned earlier game would; distinct by (command text, depth).";
 
 pub fn reversible(p: &Pos, m: &Mv) -> bool {
     let i = p.info(*m);
@@ -241,20 +241,60 @@ fn count_rule(h: &[Pos], s: &Pos) -> usize {
     h.iter().filter(|x| x.repetition_key() == k).count()
 }
 
+/// A generated case: the position commands, the game of the last one (what may count) and, for
+/// the bare-command variant, the abandoned game (what must not count).
+struct Case {
+    cmds: Vec<String>,
+    judged_history: Vec<Pos>,
+    old_history: Option<Vec<Pos>>,
+}
+
 fn check(bytes: &[u8], stats: &mut Stats) -> Verdict {
+    match build_case(bytes, false, stats) {
+        Some(c) => judge(&c.cmds, &c.judged_history, c.old_history.as_deref(), stats),
+        None => Ok(()),
+    }
+}
+
+fn build_case(bytes: &[u8], deep: bool, stats: &mut Stats) -> Option<Case> {
     let mut s = Src::new(bytes);
-    let startpos = s.chance(35);
-    let start = if startpos { Pos::startpos() } else { gen::g_small(&mut s).0 };
-    let Some((moves, _)) = build_history(&mut s, &start) else {
+    let startpos = s.chance(if deep { 8 } else { 35 });
+    let start = if startpos {
+        Pos::startpos()
+    } else if deep && s.chance(75) {
+        // few men: the reference tree of depth 3 stays small and the weaker side looks for the draw
+        let n = 1 + s.below(4);
+        gen::g_place(&mut s, n)
+    } else {
+        gen::g_small(&mut s).0
+    };
+    let built = build_history(&mut s, &start).map(|(mut moves, mut p)| {
+        // deep part: often one or two plies OFF the shuffle cycle, so that the positions seen twice
+        // lie two or three plies below the root instead of one
+        if deep {
+            let extra = s.weighted(&[30, 40, 30]);
+            for _ in 0..extra {
+                let cands: Vec<Mv> = p.legal_moves().into_iter().filter(|m| reversible(&p, m)).collect();
+                if cands.is_empty() {
+                    break;
+                }
+                let m = cands[s.below(cands.len())];
+                p = p.make(m);
+                moves.push(m);
+            }
+        }
+        (moves, p)
+    });
+    let Some((moves, _)) = built else {
         stats.exclude("no two-sided shuffle available in the generated position");
-        return Ok(());
+        return None;
     };
     let last_cmd = make_cmd(&mut s, &start, startpos, &moves);
     let p = last_cmd.last.clone();
     let legal = p.legal_moves();
     if legal.is_empty() {
         stats.exclude("terminal final position");
-        return Ok(());
+        return None;
     }
     // optionally an EARLIER position command whose history must not count: the same game but
     // with one more full cycle (more repetitions), or a different game
@@ -288,9 +328,8 @@ fn check(bytes: &[u8], stats: &mut Stats) -> Verdict {
     } else {
         cmds.push(last_cmd.text.clone());
     }
-    let cmds_v = cmds;
-    let old = if bare_last { Some(last_cmd.history.as_slice()) } else { None };
-    judge(&cmds_v, &judged_history, old, stats)
+    let old = if bare_last { Some(last_cmd.history.clone()) } else { None };
+    Some(Case { cmds, judged_history, old_history: old })
 }
 
 /// The oracle: `cmds` go to a fresh engine followed by `go depth 1`; `judged_history` is the game
@@ -430,6 +469,157 @@ pub fn judge(cmds: &[String], judged_history: &[Pos], old_history: Option<&[Pos]
     Ok(())
 }
 
+/// The deeper oracle: `cmds` go to a fresh engine followed by `go depth d` (d = 2..3); every
+/// completed iteration i <= d must report V_h(P, i): plain minimax over the reference rules in which
+/// every position BELOW the root that has already occurred twice in the judged history is worth 0
+/// (before anything else is asked about it), leaves by the reference quiescence.  With d <= 3 no
+/// position can recur inside the searched line itself, so the game history alone decides.
+pub fn judge_deep(cmds: &[String], judged_history: &[Pos], old_history: Option<&[Pos]>, depth: u8, stats: &mut Stats) -> Verdict {
+    use std::collections::HashSet;
+    let cmds: Vec<String> = cmds.to_vec();
+    let p = judged_history.last().unwrap().clone();
+    if p.legal_moves().is_empty() {
+        stats.exclude("terminal final position");
+        return Ok(());
+    }
+    let sets = |h: &[Pos]| {
+        let keys: Vec<_> = h.iter().map(|x| x.repetition_key()).collect();
+        let mut exact: HashSet<Pos> = HashSet::new();
+        let mut byrule: Vec<(Pos, Option<u8>)> = Vec::new();
+        for (i, x) in h.iter().enumerate() {
+            if h.iter().filter(|y| *y == x).count() >= 2 {
+                exact.insert(x.clone());
+            }
+            if keys.iter().filter(|k| **k == keys[i]).count() >= 2 && !keys[..i].contains(&keys[i]) {
+                byrule.push((x.clone(), keys[i].3));
+            }
+        }
+        (exact, byrule)
+    };
+    let (exact, byrule) = sets(judged_history);
+    let any_draw_position = !byrule.is_empty();
+    let mut rs = RefSearch::new(400_000);
+    // values of the iterations 1..=depth under one rule
+    let mut values = |rs: &mut RefSearch, exact: Option<&HashSet<Pos>>, keys: Option<&Vec<(Pos, Option<u8>)>>, first_only: bool| -> Option<Vec<i32>> {
+        rs.clear_v();
+        rs.draw_positions = exact.cloned();
+        rs.draw_keys = keys.cloned();
+        rs.draw_first_ply_only = first_only;
+        let mut out = Vec::new();
+        for i in 1..=depth {
+            match rs.v(&p, i) {
+                Ok(v) => out.push(v),
+                Err(_) => return None,
+            }
+        }
+        Some(out)
+    };
+    let Some(v_rule) = values(&mut rs, None, Some(&byrule), false) else {
+        stats.exclude("reference tree over the node cap");
+        return Ok(());
+    };
+    let (Some(v_exact), Some(v_none), Some(v_first)) = (values(&mut rs, Some(&exact), None, false), values(&mut rs, None, None, false), values(&mut rs, None, Some(&byrule), true)) else {
+        stats.exclude("reference tree over the node cap");
+        return Ok(());
+    };
+    if v_rule != v_exact {
+        stats.exclude("value depends on the ep convention of position identity (not judged)");
+        return Ok(());
+    }
+    let mut fl = Flounder::new();
+    let r = std::panic::catch_unwind(std::panic::AssertUnwindSafe(|| {
+        for c in &cmds {
+            fl.verif_handle_command(c);
+        }
+        let hist_len = fl.verif_searcher().verif_repetition_snapshot().len();
+        fl.verif_searcher().verif_set_hard_cap(Some(6_000_000));
+        fl.verif_handle_command(&format!("go depth {}", depth));
+        let infos = fl.verif_searcher().verif_timer().verif.infos.borrow().clone();
+        let deeper = fl.verif_searcher().verif.tt_deeper_hits.get();
+        (hist_len, infos, deeper)
+    }));
+    let (hist_len, infos, deeper) = match r {
+        Ok(x) => x,
+        Err(pn) => {
+            let msg = crate::panic_text(&pn);
+            if msg.contains("node hard cap") {
+                stats.exclude("engine search over the node watchdog");
+                return Ok(());
+            }
+            return Err(Failure::new("command-panic", json!({"commands": cmds, "panic": msg})));
+        }
+    };
+    stats.eval();
+    if deeper > 0 {
+        stats.exclude("deeper cached result reused (engine legitimately reports a deeper value)");
+        return Ok(());
+    }
+    for i in 1..=depth {
+        let Some((_, score, _, mv)) = infos.iter().find(|x| x.0 == i).copied() else {
+            return Err(Failure::new("no-info-for-a-completed-iteration", json!({"commands": cmds, "depth": depth, "iteration": i})));
+        };
+        let got = class(score);
+        let k = (i - 1) as usize;
+        if got != v_rule[k] {
+            let sig = if i == 1 {
+                "wrong-depth-1-value-with-history"
+            } else if got == v_none[k] && v_none[k] != v_rule[k] {
+                "third-occurrence-inside-the-tree-not-scored-as-draw"
+            } else if got == v_first[k] && v_first[k] != v_rule[k] {
+                "third-occurrence-deeper-than-one-ply-not-scored-as-draw"
+            } else {
+                "wrong-value-with-history-at-depth-2-or-more"
+            };
+            return Err(Failure::new(
+                sig,
+                json!({"commands": cmds, "go_depth": depth, "final_position": p.fen4(), "iteration": i, "engine_score": score, "engine_move": mv.map(|m| m.to_algebraic()),
+                       "expected_with_draw_rule": show(v_rule[k]), "value_without_draw_rule": show(v_none[k]), "value_with_the_rule_one_ply_below_the_root_only": show(v_first[k]),
+                       "positions_seen_twice_or_more_in_the_history": byrule.len(), "engine_history_entries_after_position_command": hist_len,
+                       "replay": {"go_depth": depth}}),
+            ));
+        }
+    }
+    let k = (depth - 1) as usize;
+    stats.class(&format!("deep_depth_{}", depth));
+    if any_draw_position {
+        stats.class("deep_history_has_a_position_seen_twice_or_more");
+    }
+    if v_rule[k] != v_none[k] {
+        stats.class("deep_draw_rule_changes_the_value");
+    }
+    if old_history.is_some() {
+        let (_, old_keys) = sets(old_history.unwrap());
+        if let Some(v_old) = values(&mut rs, None, Some(&old_keys), false) {
+            if v_old[k] != v_rule[k] {
+                stats.class("deep_bare_command_discriminates_(old_history_would_change_the_value)");
+                stats.nontrivial(&(&cmds, depth));
+            }
+        }
+    }
+    if v_rule[k] != v_first[k] {
+        stats.class("deep_draw_two_or_more_plies_below_the_root_decides");
+        stats.nontrivial(&(&cmds, depth));
+    }
+    stats.sample(|| json!({"part": "deep", "go_depth": depth, "commands": cmds.iter().map(|c| if c.len() > 300 { format!("{}…", &c[..300]) } else { c.clone() }).collect::<Vec<_>>(),
+        "expected_per_iteration": v_rule.iter().map(|v| show(*v)).collect::<Vec<_>>(), "without_rule": v_none.iter().map(|v| show(*v)).collect::<Vec<_>>(),
+        "rule_at_first_ply_only": v_first.iter().map(|v| show(*v)).collect::<Vec<_>>()}));
+    Ok(())
+}
+
+fn check_deep(bytes: &[u8], stats: &mut Stats) -> Verdict {
+    let depth = 2 + (bytes.first().copied().unwrap_or(0) % 2);
+    let case = build_case(bytes.get(1..).unwrap_or(&[]), true, stats);
+    // depth 3 only where the plain minimax reference stays affordable
+    let depth = match &case {
+        Some(c) if c.judged_history.last().map(|p| p.men()).unwrap_or(32) > 12 => 2,
+        _ => depth,
+    };
+    match case {
+        Some(c) => judge_deep(&c.cmds, &c.judged_history, c.old_history.as_deref(), depth, stats),
+        None => Ok(()),
+    }
+}
+
 pub fn run(tier: Tier, seed: u64, known: &Known) -> PropRun {
     let mut run = PropRun::new("exploration", RULE);
     run.assumptions = vec![
@@ -440,17 +630,30 @@ pub fn run(tier: Tier, seed: u64, known: &Known) -> PropRun {
     let (st, fl) = run_part(&part, seed, known, check);
     run.stats.merge(st);
     run.failure = fl;
+    if run.failure.is_none() {
+        let part = Part { name: "deep", cases: tier.pick(2_000, 60_000), min_len: 24, max_len: 600, max_shrink: 200, threads: threads() };
+        let (st, fl) = run_part(&part, seed, known, check_deep);
+        run.stats.merge(st);
+        run.failure = fl;
+    }
     run
 }
 
-pub fn replay(_part: &str, bytes: &[u8], case: &Value, stats: &mut Stats) -> Verdict {
+pub fn replay(part: &str, bytes: &[u8], case: &Value, stats: &mut Stats) -> Verdict {
     if let Some(cmds) = case.get("commands").and_then(|x| x.as_array()) {
         let cmds: Vec<String> = cmds.iter().filter_map(|c| c.as_str().map(|s| s.to_string())).collect();
         if let Some(last) = cmds.last() {
             if let Ok(game) = crate::script::ref_position(last) {
+                let deep = case.get("go_depth").or_else(|| case.get("replay").and_then(|r| r.get("go_depth"))).and_then(|d| d.as_u64());
+                if let Some(d) = deep {
+                    return judge_deep(&cmds, &game, None, d as u8, stats);
+                }
                 return judge(&cmds, &game, None, stats);
             }
         }
+    }
+    if part == "deep" {
+        return check_deep(bytes, stats);
     }
     check(bytes, stats)
 }
@@ -458,5 +661,9 @@ pub fn replay(_part: &str, bytes: &[u8], case: &Value, stats: &mut Stats) -> Ver
 /// Byte-level entry for the fuzz target.
 pub fn fuzz_entry(bytes: &[u8]) -> Verdict {
     let mut st = Stats::new();
-    check(bytes, &mut st)
+    if bytes.first().map(|b| b & 0x80 != 0).unwrap_or(false) {
+        check_deep(bytes, &mut st)
+    } else {
+        check(bytes, &mut st)
+    }
 }
